@@ -461,13 +461,15 @@ class SinkSock:
 
 
 class FragSock:
-    """in-memory receive side: `sched` entry 0 = socket.timeout, k>0 = at most k bytes; afterwards
-    everything asked for.  Exhausted data = b"" (EOF)."""
+    """in-memory receive side: `sched` entry 0 = socket.timeout with the packetizer's need-rekey flag clear,
+    "r" = socket.timeout with the flag set (the flag is written into `pk` at that moment), k>0 = at most k bytes;
+    afterwards everything asked for.  Exhausted data = b"" (EOF)."""
 
-    def __init__(self, data=b"", sched=()):
+    def __init__(self, data=b"", sched=(), pk=None):
         self.data = bytearray(data)
         self.sched = list(sched)
         self.recv_sizes = []
+        self.pk = pk
 
     def feed(self, data):
         self.data += data
@@ -475,7 +477,9 @@ class FragSock:
     def recv(self, n):
         self.recv_sizes.append(n)
         k = self.sched.pop(0) if self.sched else None
-        if k == 0:
+        if k == 0 or k == "r":
+            if self.pk is not None:
+                self.pk._Packetizer__need_rekey = k == "r"
             raise socket.timeout()
         if k is not None:
             n = min(n, k)
@@ -676,3 +680,30 @@ class RefReceiver:
         self.seq = (self.seq + 1) % (1 << 32)
         return {"length": n, "pad": pad, "payload": body[1:n - pad], "padding": body[n - pad:], "mac_ok": mac_ok,
                 "encrypted_len": encrypted_len, "maclen": self.maclen, "used": used}, wire[used:]
+
+
+def parse_sched(tok):
+    return [] if tok == "-" else [x if x == "r" else int(x) for x in tok.split(",")]
+
+
+def sched_tok(sc):
+    return ",".join(map(str, sc)) or "-"
+
+
+def read_message_retrying(pk, limit=100000):
+    """what Transport.run does: `except NeedRekeyException: continue`; -> (cmd, msg, retries)"""
+    from paramiko.packet import NeedRekeyException
+
+    retries = 0
+    while True:
+        try:
+            cmd, m = pk.read_message()
+            pk._Packetizer__need_rekey = False
+            return cmd, m, retries
+        except NeedRekeyException:
+            retries += 1
+            if retries > limit:
+                raise RuntimeError("NeedRekeyException loop")
+        except Exception:
+            pk._Packetizer__need_rekey = False
+            raise
